@@ -78,3 +78,75 @@ mut("C01", "r5-start-tree-after-start", "modules/start.go",
     "\t// build dependency tree\n\tbuildEnabledTree()\n\n\t// start modules\n\tlog.Info(\"modules: initiating...\")\n\terr = startModules()", "\t// start modules\n\tlog.Info(\"modules: initiating...\")\n\terr = startModules()\n\tbuildEnabledTree()", "C01-R5|modules.Start")
 mut("C01", "r6-stop-ignores-waiting", "modules/stop.go",
     "\t\t\tif waiting > 0 {\n\t\t\t\t// check for dep loop\n\t\t\t\treturn fmt.Errorf(\"modules: dependency loop detected, cannot continue\")\n\t\t\t}\n\t\t\t// return last error\n\t\t\treturn lastErr", "\t\t\tif waiting > startedCnt {\n\t\t\t\t// check for dep loop\n\t\t\t\treturn fmt.Errorf(\"modules: dependency loop detected, cannot continue\")\n\t\t\t}\n\t\t\t// return last error\n\t\t\treturn lastErr", "C01-R6|stopModules")
+
+# ---- C05 -------------------------------------------------------------------
+mut("C05", "r1-cancel-after-stopfn", "modules/modules.go",
+    "\t// Cancel the context to notify all workers and tasks.\n\tm.cancelCtx()\n\n\t// Start stop function.\n\tstopFnError := m.startCtrlFn(\"stop module\", m.stopFn)",
+    "\t// Start stop function.\n\tstopFnError := m.startCtrlFn(\"stop module\", m.stopFn)\n\n\t// Cancel the context to notify all workers and tasks.\n\tm.cancelCtx()", "C05-R1|cancelCtx() before startCtrlFn", canary=True)
+mut("C05", "r1-no-wait", "modules/modules.go",
+    "\tselect {\n\tcase <-m.stopComplete:\n\t\t// Complete!\n\tcase <-time.After(moduleStopTimeout):", "\tselect {\n\tcase <-m.stopComplete:\n\t\t// Complete!\n\tcase <-m.Ctx.Done():\n\tcase <-time.After(moduleStopTimeout):", "C05-R1|wait select shape")
+mut("C05", "r1-stopflag-after-cancel", "modules/modules.go",
+    "\tm.stopFlag.Set()\n\n\t// Cancel the context to notify all workers and tasks.\n\tm.cancelCtx()", "\t// Cancel the context to notify all workers and tasks.\n\tm.cancelCtx()\n\tm.stopFlag.Set()", "C05-R1|stopFlag.Set() before cancelCtx()")
+mut("C05", "r1-no-rearm", "modules/modules.go",
+    "\tm.stopComplete = make(chan struct{})\n\tm.stopCompleted.SetTo(false)", "\tm.stopCompleted.SetTo(false)", "C05-R1|fresh stopComplete")
+mut("C05", "r2-serviceworker-undeferred", "modules/worker.go",
+    "func (m *Module) runServiceWorker(name string, backoffDuration time.Duration, fn func(context.Context) error) {\n\tatomic.AddInt32(m.workerCnt, 1)\n\tdefer func() {\n\t\tatomic.AddInt32(m.workerCnt, -1)\n\t\tm.checkIfStopComplete()\n\t}()\n",
+    "func (m *Module) runServiceWorker(name string, backoffDuration time.Duration, fn func(context.Context) error) {\n\tatomic.AddInt32(m.workerCnt, 1)\n\tfinish := func() {\n\t\tatomic.AddInt32(m.workerCnt, -1)\n\t\tm.checkIfStopComplete()\n\t}\n\tdefer func() {\n\t\tif !m.IsStopping() {\n\t\t\tfinish()\n\t\t}\n\t}()\n", "C05-R2|runServiceWorker")
+mut("C05", "r2-microtask-no-conclude", "modules/microtasks.go",
+    "\t\t\terr = me\n\t\t}\n\n\t\tm.concludeMicroTask()\n\t}()", "\t\t\terr = me\n\t\t\treturn\n\t\t}\n\n\t\tm.concludeMicroTask()\n\t}()", "C05-R2|runMicroTask / microTaskCnt +1")
+mut("C05", "r2-task-dec-no-check", "modules/tasks.go",
+    "\t\tatomic.AddInt32(t.module.taskCnt, -1)\n\t\tt.module.checkIfStopComplete()\n", "\t\tatomic.AddInt32(t.module.taskCnt, -1)\n", "C05-R2|taskCnt -1 / then checkIfStopComplete")
+mut("C05", "r2-worker-late-defer", "modules/worker.go",
+    "\tatomic.AddInt32(m.workerCnt, 1)\n\tdefer func() {\n\t\tatomic.AddInt32(m.workerCnt, -1)\n\t\tm.checkIfStopComplete()\n\t}()\n\n\treturn m.runWorker(name, fn)",
+    "\tatomic.AddInt32(m.workerCnt, 1)\n\terr := m.runWorker(name, fn)\n\tatomic.AddInt32(m.workerCnt, -1)\n\tm.checkIfStopComplete()\n\treturn err", "C05-R2|RunWorker / workerCnt")
+mut("C05", "r3-no-taskcnt", "modules/modules.go",
+    "\t\tatomic.LoadInt32(m.taskCnt) == 0 &&\n", "", "C05-R3|completion truth table")
+mut("C05", "r3-ctrl-inverted", "modules/modules.go",
+    "\t\tm.ctrlFuncRunning.IsNotSet() &&", "\t\tm.ctrlFuncRunning.IsSet() &&", "C05-R3|completion truth table")
+mut("C05", "r3-close-unlocked", "modules/modules.go",
+    "\t\tif m.stopCompleted.SetToIf(false, true) {\n\t\t\tm.Lock()\n\t\t\tdefer m.Unlock()\n\t\t\tclose(m.stopComplete)", "\t\tif m.stopCompleted.SetToIf(false, true) {\n\t\t\tclose(m.stopComplete)", "C05-R3|close under module lock")
+mut("C05", "r4-worker-background-ctx", "modules/worker.go",
+    "\terr = fn(m.Ctx)\n\treturn\n}", "\terr = fn(context.Background())\n\treturn\n}", "C05-R4|runWorker")
+mut("C05", "r4-task-ctx-background", "modules/tasks.go",
+    "\tnewTask.ctx, newTask.cancelCtx = context.WithCancel(m.Ctx)", "\tnewTask.ctx, newTask.cancelCtx = context.WithCancel(context.Background())", "C05-R4|newTask / store Task.ctx")
+mut("C05", "r5-trigger-no-check", "modules/events.go",
+    "\tif m.OnlineSoon() {\n\t\tgo m.processEventTrigger(event, data)\n\t}", "\tgo m.processEventTrigger(event, data)", "C05-R5|TriggerEvent")
+mut("C05", "r5-onlinesoon-true", "modules/status.go",
+    "\treturn !m.stopFlag.IsSet()\n}", "\treturn !m.stopFlag.IsSet() || m.Status() == StatusOnline\n}", "C05-R5|OnlineSoon / truth table")
+mut("C05", "r5-newtask-or", "modules/tasks.go",
+    "\tif m.Ctx == nil || !m.OnlineSoon() {", "\tif m.Ctx == nil && !m.OnlineSoon() {", "C05-R5|newTask / create live task")
+mut("C05", "r5-run-ignores-done", "modules/tasks.go",
+    "\tselect {\n\tcase <-t.ctx.Done():\n\t\tt.lock.Unlock()\n\t\treturn\n\tdefault:\n\t}\n\n\t// enter executing state", "\tselect {\n\tcase <-t.ctx.Done():\n\tdefault:\n\t}\n\n\t// enter executing state", "C05-R5|not after ctx done")
+mut("C05", "r6-no-unset", "modules/modules.go",
+    "\tm.Ctx, m.cancelCtx = context.WithCancel(context.Background())\n\tm.stopFlag.UnSet()\n", "\tm.Ctx, m.cancelCtx = context.WithCancel(context.Background())\n", "C05-R6|stop flag cleared")
+mut("C05", "r4-hook-on-source-module", "modules/events.go",
+    "\terr := hook.hookingModule.RunWorker(", "\terr := m.RunWorker(", "C05-R4|runEventHook$1")
+
+# ---- C06 -------------------------------------------------------------------
+mut("C06", "r1-microtask-no-recover", "modules/microtasks.go",
+    "\t\t// recover from panic\n\t\tpanicVal := recover()\n\t\tif panicVal != nil {\n\t\t\tme := m.NewPanicError(name, \"microtask\", panicVal)\n\t\t\tme.Report()\n\t\t\tlog.Errorf(\"%s: microtask %s panicked: %s\", m.Name, name, panicVal)\n\t\t\terr = me\n\t\t}\n\n", "", "C06-R1|runMicroTask", canary=True)
+mut("C06", "r1-ctrlfn-before-defer", "modules/worker.go",
+    "\tgo func() {\n\t\t// Recover from panic and reset control function signal.\n\t\tdefer func() {", "\tgo func() {\n\t\terr := fn()\n\t\t// Recover from panic and reset control function signal.\n\t\tdefer func() {", "C06-R1|startCtrlFn$1",
+    extra=[{"file": "modules/worker.go", "old": "\t\t// Run control function and report error.\n\t\terr := fn()\n\t\tctrlFnError <- err", "new": "\t\tctrlFnError <- err"}])
+mut("C06", "r1-worker-no-result", "modules/worker.go",
+    "\t\t\tme.Report()\n\t\t\terr = me\n\t\t}\n\t}()\n\n\t// run", "\t\t\tme.Report()\n\t\t}\n\t}()\n\n\t// run", "C06-R1|runWorker / dynamic call of param:fn / panic error reaches the caller")
+mut("C06", "r1-task-no-report", "modules/tasks.go",
+    "\t\t\tme := t.module.NewPanicError(t.name, \"task\", panicVal)\n\t\t\tme.Report()\n", "\t\t\tme := t.module.NewPanicError(t.name, \"task\", panicVal)\n", "C06-R1|executeWithLocking")
+mut("C06", "r1-hook-direct", "modules/events.go",
+    "\terr := hook.hookingModule.RunWorker(\n\t\tfmt.Sprintf(\"event hook %s/%s -> %s/%s\", m.Name, event, hook.hookingModule.Name, hook.description),\n\t\tfunc(ctx context.Context) error {\n\t\t\treturn hook.hookFn(ctx, data)\n\t\t},\n\t)",
+    "\terr := hook.hookFn(hook.hookingModule.Ctx, data)", "C06-R1|runEventHook")
+mut("C06", "r2-executing-outside-defer", "modules/tasks.go",
+    "\t\tt.lock.Lock()\n\n\t\t// reset state\n\t\tt.executing = false\n", "\t\tt.lock.Lock()\n\n\t\t// reset state\n\t\tif panicVal == nil {\n\t\t\tt.executing = false\n\t\t}\n", "C06-R2|deferred reset of Task.executing")
+mut("C06", "r2-ctrl-unset-only-ok", "modules/worker.go",
+    "\t\t\t\tctrlFnError <- fmt.Errorf(\"panic: %s\", panicVal)\n\t\t\t}\n\n\t\t\t// Signal finish.\n\t\t\tm.ctrlFuncRunning.UnSet()\n\t\t\tm.checkIfStopComplete()", "\t\t\t\tctrlFnError <- fmt.Errorf(\"panic: %s\", panicVal)\n\t\t\t\treturn\n\t\t\t}\n\n\t\t\t// Signal finish.\n\t\t\tm.ctrlFuncRunning.UnSet()\n\t\t\tm.checkIfStopComplete()", "C06-R2|deferred ctrlFuncRunning.UnSet")
+mut("C06", "r2-split-defers-lifo", "modules/worker.go",
+    "\t\tdefer func() {\n\t\t\t// recover from panic\n\t\t\tpanicVal := recover()\n\t\t\tif panicVal != nil {\n\t\t\t\tme := m.NewPanicError(name, \"module-control\", panicVal)\n\t\t\t\tme.Report()\n\t\t\t\tctrlFnError <- fmt.Errorf(\"panic: %s\", panicVal)\n\t\t\t}\n\n\t\t\t// Signal finish.\n\t\t\tm.ctrlFuncRunning.UnSet()\n\t\t\tm.checkIfStopComplete()\n\t\t}()",
+    "\t\tdefer func() {\n\t\t\t// recover from panic\n\t\t\tpanicVal := recover()\n\t\t\tif panicVal != nil {\n\t\t\t\tme := m.NewPanicError(name, \"module-control\", panicVal)\n\t\t\t\tme.Report()\n\t\t\t\tctrlFnError <- fmt.Errorf(\"panic: %s\", panicVal)\n\t\t\t}\n\t\t}()\n\t\tdefer func() {\n\t\t\t// Signal finish.\n\t\t\tm.ctrlFuncRunning.UnSet()\n\t\t\tm.checkIfStopComplete()\n\t\t}()", "C06-R2|panic error sent before completion")
+mut("C06", "r3-no-stack", "modules/error.go",
+    "\t\tPanicValue: panicValue,\n\t\tStackTrace: string(debug.Stack()),", "\t\tPanicValue: panicValue,\n\t\tStackTrace: \"\",", "C06-R3|StackTrace")
+mut("C06", "r4-serve-direct", "api/router.go",
+    "\t_ = module.RunWorker(\"http request\", func(_ context.Context) error {\n\t\treturn mh.handle(w, r)\n\t})", "\t_ = mh.handle(w, r)", "C06-R4|call mainHandler.handle")
+mut("C06", "r5-default-returns", "modules/worker.go",
+    "\t\tcase errors.Is(err, ErrRestartNow):\n\t\t\t// Worker requested a restart - silently continue with loop.\n", "\t\tcase errors.Is(err, ErrRestartNow):\n\t\t\t// Worker requested a restart - silently continue with loop.\n\n\t\tcase failCnt > 10:\n\t\t\treturn\n", "C06-R5|loop exit")
+mut("C06", "r5-unwrap-panic", "modules/error.go",
+    "// Error returns the string representation of the error.", "// Unwrap returns the wrapped error.\nfunc (me *ModuleError) Unwrap() error {\n\tif e, ok := me.PanicValue.(error); ok {\n\t\treturn e\n\t}\n\treturn nil\n}\n\n// Error returns the string representation of the error.", "C06-R5|panic value not exposed")
